@@ -13,7 +13,7 @@ handler every line is stored whole in the file named for the period (in the conf
 time zone mode) that contains the line's timestamp.
 
 Models: `MgModel.C17.Size` (log_file_rotate_handler.c, pinned tree = fixed tree) and
-`MgModel.C17.Time` (log_file_time_rot_handler.c **with fixes/C17-time-rot-order.patch**;
+`MgModel.C17.Time` (log_file_time_rot_handler.c **with fixes/C17-time-rot-write-order.patch and fixes/C17-time-rot-local-time-init.patch**;
 the pinned tree is `twriteLegacy`/`tinitLegacy`, for which the time clause is *false*:
 see the two `…_legacy_…` theorems at the end).
 
@@ -166,7 +166,7 @@ example :
   ⟨by simp [Keeps, exampleOps, eff], by simp [PosLimit, exampleOps], by decide, by decide,
    by decide, by simp [LowLimit, exampleOps]⟩
 
-/-! ## Time rotation (code with fixes/C17-time-rot-order.patch) -/
+/-! ## Time rotation (code with fixes/C17-time-rot-write-order.patch and fixes/C17-time-rot-local-time-init.patch) -/
 
 /-- **C17, time clause, one write.**  From every state satisfying the representation
 invariant (every reachable state does: `time_every_line_in_its_period_file_reconf`),
